@@ -66,6 +66,19 @@ def sessions(tier: str, seed: int, kinds=vloop.CLIENTS):
                 log, _ = cf.run(kind, cf.Plan(**kw), closer(None, t, ("send-now", "connect")), status_cb="slow", t_end=40.0)
                 logs.append(log)
                 meta.append((kind, "close", sname, "slow", f"t={t}"))
+        # close() while a reconnection caused by a failing send is in progress (the old receive loop is still alive)
+        if kind != "actisense":
+            for late in ("write-error-late-eof@0.7", "write-error-late-eof@0.1"):
+                for dt in (0.0, 0.001, 0.004, 0.008, 0.0099, 0.0101, 0.012, 0.02, 0.05, 0.3):
+                    for cb in ("ok", "slowC"):
+                        plan = cf.Plan(refuse=0)
+
+                        def both(s, state, plan=plan, late=late, dt=dt):
+                            c13.fault_injector(kind, late, None, 3.0, plan)(s, state)
+                            closer(None, 3.0 + dt, ("send-now", "connect"))(s, state)
+                        log, _ = cf.run(kind, plan, both, status_cb=cb, t_end=40.0)
+                        logs.append(log)
+                        meta.append((kind, "close", "send-fault-reconnect", cb, f"+{dt}s"))
         # faults with raising / suspending callbacks: notification clauses
         for cb in ("raise", "slow"):
             for fault in ("eof", "write-error"):
